@@ -5,8 +5,12 @@
      K:<hexkey>:<v>         j.set(key, v)                    R:<hexpath>       j.remove(path)
      M:<v>                  j += v                           m:<hexpath>:<v>   j[path] += v
      T:<hexpath>            j[path];
+     t:<hexpath>:<v>        j[path] = <typed>   (typed assignment: I/B -> number, S -> string, [..] -> jsonArray,
+                                                  {..} -> jsonObject; the other members of the value stay)
+     k:<hexkey>:<v>         j.set(key, <typed>)
    Values (no blanks):  N | Z | B0 | B1 | I<int32> | S<hex> | [v,v,...] | {<hexkey>=v,...}
-   Prints the model's observations (R) and the specification's (S); the last item is the final value. *)
+   Prints the observations of the model that keeps the hidden storage of every value (R) and the
+   specification's (S); D= is the final value, X= (model only) the final value with all its members. *)
 
 let n_of_int i = if i = 0 then N0 else Npos (pos_of_int i)
 let int_of_n = function N0 -> 0 | Npos p -> int_of_pos p
@@ -21,6 +25,8 @@ type jv = (unit, unit) json
 (* the repaired source *)
 let merge_has_path = false
 let get_no_escape = false
+(* json::set with or without clearing (fixes/C25-3.patch): what the check detected in the library under test *)
+let set_no_clear = (match Sys.getenv_opt "C25_SET_NO_CLEAR" with Some "1" -> true | _ -> false)
 
 exception Bad
 
@@ -107,7 +113,37 @@ let split2 (s : string) : string * string =
   | None -> raise Bad
   | Some i -> (String.sub s 0 i, String.sub s (i + 1) (String.length s - i - 1))
 
-let op_of_token (tok : string) : (unit, unit) op =
+let tval_of (v : jv) : (unit, unit) tval =
+  match v with
+  | JNum (p, _) -> TVNum p
+  | JStr s -> TVStr s
+  | JArr l -> TVArr l
+  | JObj m -> TVObj m
+  | _ -> raise Bad
+
+(* every member of every value: T<type>[s<hex>][a[..]][o{..}] *)
+let rec encx (h : (unit, unit) hj) : string =
+  match h with
+  | HJ (t, (p, _), s, a, o) ->
+    let ty = (match t with
+        | TNone -> "N" | TNull -> "Z" | TStr -> "S" | TArr -> "A" | TObj -> "O"
+        | TNum -> (match p with PInt (KBool, v) -> "B" ^ dec_of_z v | PInt (KI32, v) -> "I" ^ dec_of_z v | _ -> "#")) in
+    ty ^ (if s = [] then "" else "s" ^ hex_of_nbytes s)
+    ^ (if a = [] then "" else "a[" ^ String.concat "," (List.map encx a) ^ "]")
+    ^ (if o = [] then "" else "o{" ^ String.concat "," (List.map (fun (k, x) -> hex_of_nbytes k ^ "=" ^ encx x) o) ^ "}")
+
+let rec hop_of_token (tok : string) : (unit, unit) hop =
+  if String.length tok >= 2 && tok.[1] = ':' && (tok.[0] = 't' || tok.[0] = 'k') then begin
+    let body = String.sub tok 2 (String.length tok - 2) in
+    let (p, v) = split2 body in
+    String.iter (fun c -> if not ((c >= '0' && c <= '9') || (c >= 'a' && c <= 'f')) then raise Bad) p;
+    if String.length p mod 2 <> 0 then raise Bad;
+    let path = nbytes_of_hex p in
+    let t = tval_of (parse_value v) in
+    if tok.[0] = 't' then HSetT (path, t) else HSetKeyT (path, t)
+  end else HOp (op_of_token tok)
+
+and op_of_token (tok : string) : (unit, unit) op =
   if tok = "Z" then OSize
   else begin
     if String.length tok < 2 || tok.[1] <> ':' then raise Bad;
@@ -144,10 +180,10 @@ let () =
       let toks = split_on ' ' line in
       let (r, s) =
         try
-          let ops = List.map op_of_token toks in
-          let (j, xs) = m_run merge_has_path get_no_escape JNone ops in
-          let (d, ys) = s_run DUndef ops in
-          let r = String.concat ";" (List.map (fun x -> show_sobs (abs_obs x)) xs @ ["D=" ^ enc j]) in
+          let hops = List.map hop_of_token toks in
+          let (h, xs) = hm_run merge_has_path get_no_escape set_no_clear hnone hops in
+          let (d, ys) = s_run DUndef (List.map op_vis hops) in
+          let r = String.concat ";" (List.map (fun x -> show_sobs (abs_obs (vis_obs x))) xs @ ["D=" ^ enc (vis h); "X=" ^ encx h]) in
           let s = String.concat ";" (List.map show_sobs ys @ ["D=" ^ encd d]) in
           ("R " ^ r, "S " ^ s)
         with Bad | Failure _ | Invalid_argument _ | Not_found -> ("R BAD", "S BAD") in
